@@ -307,7 +307,8 @@ def tld_functions(ctx, rule):
         if t[0] == "inl":
             t = t[2]
         src = P.show(r.term, maxdepth=8)
-        last = [x for x in P.subterms(r.term) if F.last_piece(x, ".") is not None and F.last_piece(x, ".")[0] == "attr" and F.last_piece(x, ".")[2] == "hostname"]
+        flat = P.strip_inl(r.term)  # a helper that only reads the hostname of the parse stands for that read
+        last = [x for x in P.subterms(flat) if F.last_piece(x, ".") is not None and F.last_piece(x, ".")[0] == "attr" and F.last_piece(x, ".")[2] == "hostname"]
         ctx.ob(rule, "has_valid_tld/last-label", bool(last), "has_valid_tld does not test the last label of the parsed hostname: %s" % src[:120], site, witness="a.b.fr")
     ref = tld.func("refresh")
     src = unparse(ref.node)
